@@ -7,6 +7,7 @@ Bolt file with a real TaskMaster), replays every case on the model and on the ca
 -/
 import Kap.Basic
 import Kap.Spec.C14
+import Kap.Model.C14Fault
 open Kap Kap.C14
 
 namespace Kap.C14.Drv
@@ -222,7 +223,16 @@ def judge (_id : String) (lines : Array String) : Verdict := Id.run do
       st := { st with ids := ids, mids := mids, fail := fail }
       -- model
       let wBefore := st.w
-      let (w', mresp) := step Variant.fixed env fail cut st.w op
+      let fault : Option Nat := (look m "fault" "").toNat?
+      -- the two semantics must coincide when no transaction fails
+      if faultable op && cut.isNone then
+        let a := handle Variant.fixed env fail (beginReq st.w none) op
+        let b := handleF env fail none (beginReq st.w none) op
+        if !(a.2 == b.2 && a.1.ntx == b.1.ntx && storeEq ids mids a.1.store b.1.store && ids.all (fun i => a.1.exec i == b.1.exec i)) then
+          st := st.mm s!"fault semantics without fault differs from the model at {l}"
+      let (w', mresp) :=
+        if fault.isSome && faultable op && cut.isNone then handleF env fail fault (beginReq st.w none) op
+        else step Variant.fixed env fail cut st.w op
       if op != .restart then
         if mresp != resp then st := st.mm s!"answer of {l}: model {mresp.str}"
         else if ntxObs != some w'.ntx then st := st.mm s!"transactions of {l}: model {w'.ntx}"
@@ -250,9 +260,17 @@ def judge (_id : String) (lines : Array String) : Verdict := Id.run do
         | _, _ =>
           { cands := [specStep env fail c op resp], tup := tup, what := l,
             dev := if isDev then some ("start-failure-after-commit", devStartFailOut env fail c op) else none }
+      let sameW := fun (a b : World) => storeEq ids mids a.store b.store && ids.all (fun i => a.exec i == b.exec i)
       let p : Pending :=
         match cut with
-        | none => p0
+        | none =>
+          if fault.isSome && faultable op then
+            -- a storage fault: either the request had no effect / its full effect (judged as answered), or it
+            -- stopped between two transactions (recorded deviation, characterised by the fault model)
+            let wA := (handle Variant.fixed env fail (beginReq wBefore none) op).1
+            if sameW w' wBefore || sameW w' wA then p0
+            else { cands := [], what := l, devModel := some "crash-between-transactions" }
+          else p0
         | some k =>
           -- crash: the process restarts on the file as it was after k transactions of the request. The file is
           -- the one before the request, the one after it, or — INSIDE the request — neither.
